@@ -190,8 +190,8 @@ theorem core_inv (s : State) (now : Nat) (op : List String) (h : Inv s) : ∀ r 
 theorem step_inv (s : State) (op : List String) (h : Inv s) : ∀ o ∈ step s op, Inv o.1 := by
   intro o ho
   simp only [step, List.mem_flatMap, List.mem_map] at ho
-  obtain ⟨st, hst, r, hr, rfl⟩ := ho
-  exact inv_of_eq _ _ (core_inv st.1 _ _ (expire_inv s _ h st hst) r hr) rfl rfl
+  obtain ⟨st, hst, r, hr, r2, hr2, rfl⟩ := ho
+  exact expire_inv { r.1 with tprev := opTime op } _ (inv_of_eq r.1 _ (core_inv st.1 _ _ (expire_inv s _ h st hst) r hr) rfl rfl) r2 hr2
 
 inductive Reach : State → Prop
   | init : Reach init
